@@ -216,6 +216,76 @@ theorem clientSingle_sees (c : Cfg α) (laws : CodecLaws c.cd) (sc : Script α) 
     subst r2
     simp [hs2, htr, hh, Metadata.clientUnaryMetadata]
 
+/-- **A single-response client (`unary` / `client_streaming`) reading what a STREAMING handler produced**:
+any number of messages, then an error status in the trailers — the wire shape any gRPC server may answer a
+unary call with when it fails after having produced output.  The call fails with that status (read from the
+trailers: `body.trailers().await?` drains what is left and must not swallow the error — seed C02f); when no
+message preceded it, the response headers are merged into the status' metadata. -/
+theorem clientSingle_sees_streamed_error (c : Cfg α) (laws : CodecLaws c.cd) (sc : Script α) (st : FSt)
+    (hearly : sc.early = none) (hf : sc.final = some st) (ok : ScriptOk c.cd sc)
+    (n : Nat) (hn : (handlerSrc true sc).length + 1 < n)
+    (d : RespDelivery) (ht : RespTransports (handlerResponse c n true sc) d)
+    (hfuel : d.chunks.length + 1 + sc.body.msgs.length < c.fuel) :
+    ∃ st', Status.fromHeaderMap .fixed (Status.wire .fixed st []) = some (.status st') ∧ SameStatus st st' ∧
+      clientSingle c d = .err (if sc.body.msgs = [] then
+        { st' with metadata := HMap.extend st'.metadata (Metadata.responseWire sc.initMd) } else st') := by
+  obtain ⟨hs, hh, htr, hp, hc, hx, he, hl, hm⟩ := drain_response c laws true sc hearly ok n hn d ht hfuel
+  have hcr := createResponse_body d sc.initMd ok.initMd hh
+  have hmsgs : respMsgs true sc = sc.body.msgs := rfl
+  rw [hmsgs] at hx hm
+  obtain ⟨hcode, hutf⟩ := ok.final st hf
+  have howed : owedOf true sc = ⟨st.code.num, .user⟩ := by simp [owedOf, hf]
+  have hT := userTrailers_eq c sc st st.code.num hf
+  obtain ⟨st', hr, hsame⟩ := status_roundtrip st [] hutf (fun _ _ => rfl) rfl rfl
+  have htrof : trOf (Status.wire .fixed st []) = some st.code.num := by
+    simp [trOf, hr, hsame.1]
+  have hne : st.code.num ≠ 0 := fun h => hcode ((num_eq_zero _).mp h)
+  rw [howed, hT, htrof] at he
+  have hresp : respTr { enc := none, maxSize := none, dir := .response d.status } (some (some st.code.num))
+      = some ⟨st.code.num, .user⟩ := by
+    simp [respTr, inferStatus, hne]
+  have hend' : endOf { enc := none, maxSize := none, dir := .response d.status } (some (some st.code.num))
+      = .err ⟨st.code.num, .user⟩ := by
+    simp [endOf, hresp]
+  have hrespErr : respErr c.deMsg d ⟨st.code.num, .user⟩ = st' := by
+    simp [respErr, htr, howed, hT, hr]
+  refine ⟨st', hr, hsame, ?_⟩
+  obtain ⟨hnp, hend⟩ := nextItem_end c.cd { enc := none, maxSize := none, dir := .response d.status } c.fuel
+    Dec.init (respEvs d) sc.body.msgs hp hc hx hl
+  simp only [clientSingle, hcr]
+  generalize nextItem c.cd { enc := none, maxSize := none, dir := .response d.status } c.fuel Dec.init (respEvs d) = r at hnp hend
+  obtain ⟨s1, evs1, o⟩ := r
+  cases o with
+  | pending => exact absurd rfl hnp
+  | none =>
+    obtain ⟨_, a2, _⟩ := hend
+    rw [he, hresp] at a2
+    exact absurd a2 (by simp)
+  | err e =>
+    obtain ⟨a1, a2⟩ := hend
+    rw [he, hresp] at a2
+    have : e = ⟨st.code.num, .user⟩ := by simpa using a2.symm
+    subst this
+    simp [a1, hrespErr, hh]
+  | msg m' =>
+    obtain ⟨ms', a1, a2, a3, a4, a5, a6⟩ := hend
+    dsimp only at a2 a3 a4 a5 a6
+    obtain ⟨r1, r2, r3⟩ := readN_end c.cd { enc := none, maxSize := none, dir := .response d.status } c.fuel c.fuel
+      s1 evs1 ms' a2 a3 a4 (by omega)
+    have hlen : ms'.length < c.fuel := by
+      have : sc.body.msgs.length = ms'.length + 1 := by rw [a1]; simp
+      omega
+    have hnot : ¬ c.fuel ≤ ms'.length := by omega
+    rw [a5, he] at r2
+    simp only [hnot, ↓reduceIte, hend'] at r2
+    simp only [drain]
+    generalize readN c.cd { enc := none, maxSize := none, dir := .response d.status } c.fuel c.fuel s1 evs1 = r at r1 r2
+    obtain ⟨l, e, s2⟩ := r
+    dsimp only at r1 r2
+    subst r2
+    have hnil : sc.body.msgs ≠ [] := by rw [a1]; simp
+    simp [hrespErr, hnil]
+
 /-! ### request direction: what the handler is given -/
 
 /-- the request body as the server's decoder meets it, for any delivery of the request -/
